@@ -51,7 +51,7 @@ type axisContract struct {
 }
 
 var axisContracts = map[string]axisContract{
-	pkgTensor + ".Concat":     {arg: 0, validates: "both", resolves: false},
+	pkgTensor + ".Concat":     {arg: 0, validates: "upper", resolves: false}, // shape.go l.340: -1 is AllAxes and taken as axis 0 for the shape, then indexes with -1 (panic); other negatives are refused
 	pkgTensor + ".Argmax":     {arg: 1, validates: "upper", resolves: false},
 	pkgTensor + ".SoftMax":    {arg: 1, validates: "both", resolves: true},
 	pkgTensor + ".LogSoftMax": {arg: 1, validates: "both", resolves: true},
@@ -98,6 +98,52 @@ func (c *Ctx) isRangeChecker(f *ssa.Function) bool {
 	if f == nil || !isLibFn(f) || f.Signature.Params().Len() != 3 || f.Signature.Results().Len() != 1 {
 		return false
 	}
+	if c.rangeCheckerMemo == nil {
+		c.rangeCheckerMemo = map[*ssa.Function]bool{}
+	}
+	if v, ok := c.rangeCheckerMemo[f]; ok {
+		return v
+	}
+	v := c.isRangeChecker1(f)
+	c.rangeCheckerMemo[f] = v
+	return v
+}
+
+// isRangeChecker1: by form (x < lo and x > hi comparisons on the parameters) or, whatever the form, by table:
+// f([x], lo, hi) and f([lo, x], lo, hi) answer true exactly for lo <= x <= hi.
+func (c *Ctx) isRangeChecker1(f *ssa.Function) bool {
+	if bt, ok := f.Signature.Results().At(0).Type().Underlying().(*types.Basic); !ok || bt.Kind() != types.Bool {
+		return false
+	}
+	if st, ok := f.Signature.Params().At(0).Type().Underlying().(*types.Slice); !ok || !isIntType(st.Elem()) {
+		return false
+	}
+	okAll, n := true, 0
+	for _, lohi := range [][2]int64{{-3, 2}, {0, 4}, {1, 1}} {
+		lo, hi := lohi[0], lohi[1]
+		for x := lo - 2; x <= hi+2; x++ {
+			for _, two := range []bool{false, true} {
+				heap := newHeap()
+				l := []pval{{k: pInt, i: x}}
+				if two {
+					l = []pval{{k: pInt, i: lo}, {k: pInt, i: x}}
+				}
+				p := &pinterp{c: c, budget: 20000}
+				res, _ := p.run(f, []pval{heap.alloc(l), {k: pInt, i: lo}, {k: pInt, i: hi}}, 0, heap)
+				if len(res) != 1 || res[0].k != pBool {
+					return c.isRangeCheckerByForm(f)
+				}
+				n++
+				if res[0].b != (x >= lo && x <= hi) {
+					okAll = false
+				}
+			}
+		}
+	}
+	return okAll && n > 0
+}
+
+func (c *Ctx) isRangeCheckerByForm(f *ssa.Function) bool {
 	if b, ok := f.Signature.Results().At(0).Type().Underlying().(*types.Basic); !ok || b.Kind() != types.Bool {
 		return false
 	}
@@ -1033,6 +1079,7 @@ type axisRun struct {
 	decided  int
 	sinks    int
 	reshapes int
+	refused  int // invalid cells that end in an error on every path the walk could follow
 	aborted  bool
 }
 
@@ -1255,7 +1302,19 @@ func (ar *axisRun) run(entry *ssa.Function, args []pval, cell *axisCell, init bo
 			checkAxes(fn, call, got)
 		}
 	}
-	p.run(entry, args, 0, nil)
+	res, _ := p.run(entry, args, 0, nil)
+	if cell.refuse && !init && len(res) == 2 {
+		switch {
+		case res[1].k == pNil:
+			ar.add("accepted", entry.Pos(), entry, cell, "")
+		case nonNilKind(res[1].k):
+			ar.refused++
+		default:
+			if os.Getenv("R9FDEBUG") != "" {
+				fmt.Printf("R9FDEBUG undetermined invalid cell: %s -> %v\n", cell.desc, res)
+			}
+		}
+	}
 	ar.decided += p.decided
 	ar.aborted = ar.aborted || p.aborted
 }
@@ -1375,7 +1434,7 @@ func ruleAxisAccept(c *Ctx, prop string) {
 		}
 		n++
 		args := []pval{{k: pRecv}, {k: pInputs}}
-		cells := 0
+		cells, invalid := 0, 0
 		listRank := int64(3)
 		if c.tier == "thorough" {
 			listRank = 4
@@ -1423,6 +1482,28 @@ func ruleAxisAccept(c *Ctx, prop string) {
 					}
 					cells++
 					ar.run(apply, args, cell, false)
+				}
+			}
+			if prop == "C07" || prop == "C08" {
+				for r := int64(1); r <= 3; r++ {
+					hi := r - 1
+					if flatten {
+						hi = r
+					}
+					ext := make([]int64, r)
+					for i := range ext {
+						ext[i] = int64(i) + 2
+					}
+					for _, a := range []int64{-r - 2, -r - 1, hi + 1, hi + 2} {
+						cell := &axisCell{rank: r, extents: ext, axis: a, norm: []int64{a}, refuse: true, desc: fmt.Sprintf("%s = %d on an operand of shape %s (outside the valid range [%d, %d])", src.field, a, fmtInts(ext), -r, hi)}
+						if src.op == "Gather" {
+							cell.shapes = map[int64][]int64{1: {2}}
+							cell.lists = map[int64][]int64{1: {0, 0}}
+						}
+						cells++
+						invalid++
+						ar.run(apply, args, cell, false)
+					}
 				}
 			}
 			// Init: the getter call whose value is stored into the field
@@ -1491,6 +1572,23 @@ func ruleAxisAccept(c *Ctx, prop string) {
 					cell := &axisCell{rank: r, extents: ext, absent: map[int64]bool{1: true}, shape: want, desc: fmt.Sprintf("no axes input on an operand of shape %s", fmtInts(ext))}
 					cells++
 					ar.run(apply, args, cell, false)
+					// invalid requests: an axis out of range, a duplicate (in either spelling), an axis whose extent is not 1
+					var invalids [][]int64
+					invalids = append(invalids, []int64{r}, []int64{-r - 1}, append(append([]int64{}, sub...), r+1), append(append([]int64{}, sub...), sub[0]), append(append([]int64{}, sub...), sub[0]-r))
+					for _, bad := range invalids {
+						c3 := &axisCell{rank: r, extents: ext, lists: map[int64][]int64{1: bad}, refuse: true, desc: fmt.Sprintf("axes = %s on an operand of shape %s (out of range or duplicate)", fmtInts(bad), fmtInts(ext))}
+						cells++
+						invalid++
+						ar.run(apply, args, c3, false)
+					}
+					for i := int64(0); i < r; i++ {
+						if !in[i] {
+							c3 := &axisCell{rank: r, extents: ext, lists: map[int64][]int64{1: {i}}, refuse: true, desc: fmt.Sprintf("axes = %s on an operand of shape %s (the extent of that axis is not 1)", fmtInts([]int64{i}), fmtInts(ext))}
+							cells++
+							invalid++
+							ar.run(apply, args, c3, false)
+						}
+					}
 				}
 			}
 		case src.op == "Unsqueeze":
@@ -1523,6 +1621,22 @@ func ruleAxisAccept(c *Ctx, prop string) {
 							cell := &axisCell{rank: r, extents: ext, lists: map[int64][]int64{1: sp}, norm: normAxes(sp, or), shape: want, desc: fmt.Sprintf("axes = %s on an operand of shape %s (output rank %d)", fmtInts(sp), fmtInts(ext), or)}
 							cells++
 							ar.run(apply, args, cell, false)
+						}
+						// invalid: out of the output's range, duplicates in either spelling
+						var invalids [][]int64
+						repl := append([]int64{}, sub...)
+						repl[len(repl)-1] = or
+						neg := append([]int64{}, sub...)
+						neg[0] = -or - 1
+						invalids = append(invalids, repl, neg)
+						if k == 2 {
+							invalids = append(invalids, []int64{sub[0], sub[0]}, []int64{sub[0], sub[0] - or})
+						}
+						for _, bad := range invalids {
+							c3 := &axisCell{rank: r, extents: ext, lists: map[int64][]int64{1: bad}, refuse: true, desc: fmt.Sprintf("axes = %s on an operand of shape %s (out of the output's range or duplicate)", fmtInts(bad), fmtInts(ext))}
+							cells++
+							invalid++
+							ar.run(apply, args, c3, false)
 						}
 					}
 				}
@@ -1582,6 +1696,14 @@ func ruleAxisAccept(c *Ctx, prop string) {
 							ar.run(apply, args, cell, false)
 						}
 					}
+					for _, badAxis := range []int64{r, -r - 1} {
+						bad := append([]int64{}, sub...)
+						bad[0] = badAxis
+						c3 := &axisCell{rank: r, extents: ext, lists: map[int64][]int64{1: zeros, 2: ones, 3: bad}, absent: map[int64]bool{4: true}, refuse: true, desc: fmt.Sprintf("axes = %s on an operand of shape %s (out of range)", fmtInts(bad), fmtInts(ext))}
+						cells++
+						invalid++
+						ar.run(apply, args, c3, false)
+					}
 				}
 			}
 		default:
@@ -1610,7 +1732,7 @@ func ruleAxisAccept(c *Ctx, prop string) {
 			case "wrong-axis":
 				c.violate("R9", key, c.pos(pos), fmt.Sprintf("with %s the axes handed to gorgonia are %s, not %s: other axes than the requested ones are used", h.cell.desc, h.got, fmtInts(h.cell.norm)))
 			case "accepted":
-				c.violate("R9", key, c.pos(pos), fmt.Sprintf("an invalid request is answered with a tensor: with %s gorgonia's Reshape is reached with the acceptable shape %s instead of an error", h.cell.desc, h.got))
+				c.violate("R9", key, c.pos(pos), "an invalid request is answered with a tensor instead of an error: with "+h.cell.desc+" the operator returns a result and a nil error")
 			case "wrong-shape":
 				c.violate("R9", key, c.pos(pos), fmt.Sprintf("with %s the shape handed to Reshape is %s, ONNX prescribes %s", h.cell.desc, h.got, fmtInts(h.cell.shape)))
 			}
@@ -1627,11 +1749,23 @@ func ruleAxisAccept(c *Ctx, prop string) {
 			continue
 		}
 		why := fmt.Sprintf("%d table cells (rank x every valid spelling): no branch decided by the cell leads to an error (%d such branches evaluated), %d axis arguments and %d Reshape arguments of gorgonia calls have the prescribed value", cells, ar.decided, ar.sinks, ar.reshapes)
+		if invalid > 0 {
+			why += fmt.Sprintf("; %d invalid requests (out of range, duplicate, extent not 1): none is answered with a result, %d end in an error on every path followed", invalid, ar.refused)
+		}
 		if ar.aborted {
 			c.note("R9", "R9f:"+label, c.pos(apply.Pos()), why+"; some paths were abandoned at the step budget")
 		} else {
 			c.discharge("R9", "R9f:"+label, c.pos(apply.Pos()), why)
+			// the table decides this source when it also saw (nearly) every invalid request refused
+			if c.tableCovered == nil {
+				c.tableCovered = map[string]string{}
+			}
+			if invalid == 0 || ar.refused*10 >= invalid*9 {
+				c.tableCovered["R9f:"+label] = "R9f:" + label
+			}
 		}
+		c.counts["R9f.invalid_cells"] += invalid
+		c.counts["R9f.invalid_cells_refused"] += ar.refused
 	}
 	c.counts["R9f.sources"] += n
 }
